@@ -146,15 +146,18 @@ PROPS["C02"] = dict(
                "a chain of len events emits len-2 triangles with in-range pairwise distinct indices and never exhausts its "
                "loop. The Gallina port (incl. the f32-rounded `dy * 0.1` test) is compared triangle-by-triangle (ids and "
                "order) with the real code through the lyon_verif hook on every y-monotone lattice polygon up to the stated "
-               "size. Interior-disjointness / area tiling is validated per run (exact area sums), not proved; the "
-               "system-level tiling of whole fills is covered with C01's checker when registered.",
+               "size. Interior-disjointness / area tiling of the stage is validated per run (exact integer area sums). "
+               "System level: the output of whole fills (C01's generators) is checked for points covered by more than one "
+               "triangle on every scan line with the Coq-evaluated cover count, and on sample points directly; together "
+               "with C01's exact coverage this gives 'covered exactly once'.",
     level_note="Trusted: Coq kernel; Base/F32.v rounding (validated against Rust each run); geometric tiling (triangles inside "
                "the piece, no overlap) is checked by exact integer area sums on every enumerated polygon, not by a theorem.",
     technique="Coq proof (invariants over the tessellator state machines) + exhaustive enumeration correspondence via hook",
-    coq_targets=["theories/Props/C02.vo", "theories/Run/C02.vo"],
+    coq_targets=["theories/Props/C02.vo", "theories/Run/C02.vo", "theories/Run/C01.vo"],
     props_file="theories/Props/C02.v",
     props_module="Props.C02",
-    harness=[dict(sub="c02", profile="debug"), dict(sub="c02", profile="release")],
+    harness=[dict(sub="c02", profile="debug"), dict(sub="c02", profile="release"),
+             dict(sub="c01", profile="debug", extra=["--overlap"])],
     rule="every y-monotone lattice polygon with up to 4 (quick) / 6 (thorough) middle vertices (all left/right interleavings x "
          "x offsets 1..3) through both tessellators; random taller/narrower scalings (sides_are_close path), equal-y rows, "
          "longer chains; arbitrary non-monotone side sequences; non-trivial = at least 4 vertices",
@@ -383,4 +386,36 @@ PROPS["C13"] = dict(
          "four flag combinations; every case: centre form, round trip, quadratic and cubic sequences",
     trusted_base=["Model/Arc.v follows Arc::from_svg_arc / to_svg_arc / arc_to_quadratic_beziers_with_t in arc.rs"],
     assumptions=["non-zero radii and distinct end points (otherwise lyon treats the arc as a straight line)"],
+)
+
+PROPS["C01"] = dict(
+    level="translation_validation",
+    level_text="Validation with a PROVED validator. The specification (Checker/Region.v, ~40 lines: signed crossing number, "
+               "fill rule, covers, far) is exact over the rationals. The decision procedure check_line is proved sound "
+               "(Props/C01.v, C01_line_sound): if it accepts a horizontal line, then for EVERY point of that line farther "
+               "than the tolerance from every outline edge, the point is covered by an output triangle iff its winding "
+               "number satisfies the fill rule; every witness it reports is proved to be a genuine violation; the tolerance "
+               "band of an edge is proved convex and the squared distance exact. Each run applies it to the real "
+               "tessellator's output on every vertex ordinate and every mid-slab line of every generated path (exact f32 "
+               "coordinates), for all six entry points x both fill rules x both orientations x two tolerances; all "
+               "generated paths are additionally checked on sample points with an independent f64 test; panics count as "
+               "failures. The quantifier over points of a scanned line is discharged by proof; over lines between the "
+               "scanned ones and over input paths by enumeration / sampling.",
+    level_note="Not proved: that lyon's sweep produces accepted output for all paths (the sweep is not modelled), nor the "
+               "lift from the scanned lines to the whole plane (slab argument, DESIGN.md section 4 stage 2). Termination "
+               "and panic freedom of the real sweep are observed, not proved.",
+    technique="Coq-verified scanline region comparator applied to the real output (translation validation) + exhaustive small lattice polygons",
+    coq_targets=["theories/Props/C01.vo", "theories/Run/C01.vo"],
+    props_file="theories/Props/C01.v",
+    props_module="Props.C01",
+    harness=[dict(sub="c01", profile="debug")],
+    rule="every closed polygon with 3 vertices and every polygon (closed / open alternating) with 4 vertices on the 3x3 "
+         "(quick) / 4x4 (thorough) lattice - all coincident / collinear / repeated-vertex / bow-tie degeneracies of that "
+         "size - with the configuration (fill rule, orientation, tolerance, entry point) rotating with the case index; "
+         "random multi-sub-path lattice paths, stars, nested and edge-sharing squares, non-lattice polygons; every case is "
+         "checked directly on ~850 sample points; a rotating subset goes through the Coq checker (all scan lines); "
+         "non-trivial = at least one triangle produced",
+    exhaustive_note="polygons with 3 and 4 vertices on the stated lattice (direct check on all; verified checker on a rotating subset in the quick tier)",
+    trusted_base=["Checker/Region.v specification; Model/Winding.v wn (anchored by C18's theorems); recording geometry builder"],
+    assumptions=["points within the tolerance of an outline edge are not judged", "a call that returns Err is not judged (none observed)"],
 )
